@@ -172,4 +172,4 @@ func VerifC08Preempt3()    { c08Close(true, 1, 1, 3, true) }
 
 // VerifC08Shards2Late: two registry shards (the root is in both) and an increment that lands
 // while a periodic pass may be between them.
-func VerifC08Shards2Late() { c08Shards, c08LateInc = 2, true; c08Close(true, 1, 1, 2, false) }
+func VerifC08Shards2Late() { c08Shards, c08LateInc = 2, true; c08Close(true, 1, 1, 1, false) }
